@@ -169,10 +169,11 @@ class DDEHistory:
 
     def __call__(self, t: float) -> np.ndarray:
         t = float(t)
+        # (copies: the caller may modify the returned array without altering the stored records)
         if t <= self._t[0]:
-            return self._y[0]
+            return self._y[0].copy()
         if t >= self._t[-1]:
-            return self._y[self._n - 1]
+            return self._y[self._n - 1].copy()
         idx = bisect.bisect_right(self._t, t) - 1
         t0_ = self._t[idx]
         t1_ = self._t[idx + 1]
